@@ -549,7 +549,7 @@ func c20Gen(g *G) {
 		}
 		return pick([]string{"durov", "joinchat", "BotFather", ""})
 	}
-	nSample := g.N(3000, 120000)
+	nSample := g.N(3000, 300000)
 	for i := 0; i < nSample; i++ {
 		k := r.Pick(0, 1, 1, 1, 2, 2, 2, 3)
 		path := ""
@@ -574,7 +574,7 @@ func c20Gen(g *G) {
 	pieces := []string{"t.me", "telegram.me", "tx.me", "http", "https", "tg", "ftp", ":", "/", "//", "///", "?", "#", "%", "%2F", "%2f", "%41", "%25",
 		"%3A", "%2e", "@", "[", "]", "[::1]", "joinchat", ".", "*", " ", "\x00", "\n", "\x7f", "é", "É", "\xff", "\xc3", "443", "80",
 		"user", "pass", "+", "-", "_", "~", "!", "$", "&", "'", "(", ")", ",", ";", "=", "<", ">", "\"", "\\", "^", "`", "{", "}", "|", "A", "z", "0"}
-	nArb := g.N(4000, 400000)
+	nArb := g.N(4000, 1000000)
 	for i := 0; i < nArb; i++ {
 		var s string
 		switch r.Intn(5) {
